@@ -437,7 +437,17 @@ def replay(mod, path):
     build.activate()
     known, _ = load_known()
     doc = json.load(open(path))
-    out = run_isolated(mod, doc['case'])
+    # a check may declare that some of its violations depend on state the simulator does not own (the
+    # allocator: address reuse); such a replay is attempted several times and counts as reproduced if any
+    # attempt shows the recorded class
+    attempts = max(1, int(getattr(mod, 'REPLAY_ATTEMPTS', 1)))
+    for _ in range(attempts):
+        out = run_isolated(mod, doc['case'])
+        if out.get('harness_error'):
+            break
+        real, _kn = violation_classes(out, mod.PROPERTY, known)
+        if any(v['class'] == doc['class'] for v in real):
+            break
     if out.get('harness_error'):
         print('HARNESS-ERROR during replay:\n' + out['harness_error'])
         return 2
@@ -572,9 +582,13 @@ def run_check(mod, tier, seed, runs=None, jobs=None, wall=None, selfcheck=True, 
         small, steps = case, 0
         if vclass not in ('hang', 'hang-hard', 'crash'):
             small, steps = minimise(mod, case, vclass, known, budget_s=plan.get('shrink_s', 60), violation=v)
-            out = run_isolated(mod, small, limit=60)
-            real, _ = violation_classes(out, prop, known)
-            same = [x for x in real if x['class'] == vclass]
+            same = []
+            for _attempt in range(max(1, int(getattr(mod, 'REPLAY_ATTEMPTS', 1)))):
+                out = run_isolated(mod, small, limit=60)
+                real, _ = violation_classes(out, prop, known)
+                same = [x for x in real if x['class'] == vclass]
+                if same:
+                    break
             if same:
                 v = same[0]
             else:
